@@ -70,6 +70,26 @@ theorem sortByKey_optPerm {a b : Option (List (String × NodeId))} (h : optPerm 
     | none => exact h.elim
     | some y => exact sortByKey_perm h (hn x rfl)
 
+/-- a checker for `StoreKeysNodup` -/
+def keysNodupB (st : Store) : Bool :=
+  st.toList.all fun n => n.childFields.all fun f =>
+    match f with
+    | .keyed _ (some kvs) => decide (kvs.map (·.1)).Nodup
+    | _ => true
+
+theorem storeKeysNodup_of_check (st : Store) (h : keysNodupB st = true) : StoreKeysNodup st := by
+  intro i n hi j kvs hm
+  unfold keysNodupB at h
+  rw [List.all_eq_true] at h
+  have hmem : n ∈ st.toList := by
+    unfold Store.get? at hi
+    rw [Array.mem_toList_iff]
+    exact Array.mem_of_getElem? hi
+  have := h n hmem
+  rw [List.all_eq_true] at this
+  have := this _ hm
+  simpa using this
+
 /-- Schema.all / resolveURIs visit the same children in the same order -/
 theorem children_perm {a b : Node} (h : permNode a b) (hn : KeysNodup a) : b.children = a.children := by
   obtain ⟨p, pp, d, df, ds, dst, dr, dsc, h1, h2, h3, h4, h5, h6, h7, h8, rfl⟩ := h
